@@ -40,7 +40,8 @@ pub enum Op {
     /// `continue_async(limit)` calls until the line completes. `pauses[i]` is
     /// the clock-read index at which call i is paused (0 = run to completion).
     /// If `finish_plain` the last call is a plain `cont()`.
-    ContinueSliced { pauses: Vec<u32>, finish_plain: bool },
+    /// `repeat_last`: once `pauses` is used up, every further call pauses at its last entry.
+    ContinueSliced { pauses: Vec<u32>, finish_plain: bool, #[serde(default)] repeat_last: bool },
     Choose(u32),
     Save(u8),
     /// load a slot into the live instance
@@ -69,8 +70,8 @@ impl Op {
         match self {
             Op::Continue => "Continue".into(),
             Op::ContinueMax => "ContinueMax".into(),
-            Op::ContinueSliced { pauses, finish_plain } => {
-                format!("ContinueSliced{:?}{}", pauses, if *finish_plain { "+plain" } else { "" })
+            Op::ContinueSliced { pauses, finish_plain, repeat_last } => {
+                format!("ContinueSliced{:?}{}{}", pauses, if *repeat_last { "*" } else { "" }, if *finish_plain { "+plain" } else { "" })
             }
             Op::Choose(k) => format!("Choose({k})"),
             Op::Save(s) => format!("Save({s})"),
